@@ -140,6 +140,10 @@ pub struct Diag {
     pub description: String,
     pub related: Vec<(i64, usize, usize, String)>,
     pub raw_text: String,
+    /// which import of the file (rank of the import request; a file included twice is two
+    /// instances of the same text); -1 = unknown
+    #[serde(default)]
+    pub instance: i64,
 }
 
 pub fn level_name(l: &SeverityLevel) -> &'static str {
@@ -176,6 +180,7 @@ fn mk_diag(
         description,
         related,
         raw_text,
+        instance: reader.rank_of(file).map(|x| x as i64).unwrap_or(-1),
     }
 }
 
